@@ -78,7 +78,7 @@ func (c *Ctx) checkEffects(r *Result, rule string, fn *ssa.Function, spec effSpe
 	}
 	for _, key := range sortedKeys(spec) {
 		if _, ok := per[key]; !ok && spec[key] != "any" && spec[key] != "opt" {
-			r.Viol(rule, name+"#"+key+"#missing-update", c.Pos(fn.Pos()), "model expects this field to change by ["+spec[key]+"], the function never stores to it")
+			r.ViolMissing(c, fn, rule, name+"#"+key+"#missing-update", c.Pos(fn.Pos()), "model expects this field to change by ["+spec[key]+"], the function never stores to it")
 		}
 	}
 }
